@@ -8,7 +8,7 @@ are put together: `Duplex` holds the connection twice, once per direction, `ab` 
 endpoint B as the sender; `Same` says that the two views hold THE SAME two endpoints (`ab.a = ba.b`, `ab.b = ba.a`). Every
 step of the duplex system — an application send at either end, a keep-alive of either end, the delivery of any packet ever
 emitted in either direction to the other end's `handle`, any acknowledgement arriving at either end, a retransmission timer
-of either end firing, any packet with a signature its receiver does not expect arriving at either end, a graceful `disconnect()` of either end — is one `Sys` step in each view (the main step in one, a frame step in the other); `duplex_step` shows
+of either end firing, any packet with a signature its receiver does not expect arriving at either end, a graceful `disconnect()` of either end, a send of either end on ANOTHER substream, any ordinary packet of another substream arriving at either end — is one `Sys` step in each view (the main step in one, a frame step in the other); `duplex_step` shows
 the two views stay the same pair of endpoints and both stay coupled to their L2 channels. Hence (`duplex_safe`) in every
 reachable state what B's application can read is a prefix of what A's application sent AND what A's can read is a prefix
 of what B's sent — for every interleaving of the sends, deliveries, acknowledgements and timers of both directions.
@@ -44,6 +44,10 @@ inductive DOp where
   | injectB (now : Time) (p : Packet)
   | disconnectA (now : Time)              -- A's application: graceful `disconnect()`
   | disconnectB (now : Time)
+  | sendAOther (now : Time) (data : Bytes) (s' : Nat)   -- A's application sends on ANOTHER substream
+  | sendBOther (now : Time) (data : Bytes) (s' : Nat)
+  | toBOther (now : Time) (p : Packet)     -- an ordinary packet of ANOTHER substream arrives at B (any such packet, genuine or not)
+  | toAOther (now : Time) (p : Packet)
 
 /-- the step as seen in direction A→B -/
 def DOp.inAB (sub : Nat) (d : Duplex) : DOp → Option SysOp
@@ -65,6 +69,10 @@ def DOp.inAB (sub : Nat) (d : Duplex) : DOp → Option SysOp
   | .injectB now p => some (.inject now p)
   | .disconnectA now => some (.disconnect now)
   | .disconnectB now => some (.bDisconnect now)
+  | .sendAOther now data s' => some (.aSendOther now data s')
+  | .sendBOther now data s' => some (.bSend now data s')
+  | .toBOther now p => some (.bRecvOther now p)
+  | .toAOther now p => some (.aRecv now p)
 
 /-- the step as seen in direction B→A -/
 def DOp.inBA (sub : Nat) (d : Duplex) : DOp → Option SysOp
@@ -86,6 +94,10 @@ def DOp.inBA (sub : Nat) (d : Duplex) : DOp → Option SysOp
   | .injectB now p => some (.aInject now p)
   | .disconnectA now => some (.bDisconnect now)
   | .disconnectB now => some (.disconnect now)
+  | .sendAOther now data s' => some (.bSend now data s')
+  | .sendBOther now data s' => some (.aSendOther now data s')
+  | .toBOther now p => some (.aRecv now p)
+  | .toAOther now p => some (.bRecvOther now p)
 
 def Sys.stepO (env : Env) (sub : Nat) (s : Sys) : Option SysOp → Sys
   | none => s
@@ -168,6 +180,10 @@ theorem same_step (env : Env) (sub : Nat) (d : Duplex) (op : DOp) (h : d.Same) :
     by_cases hst : d.ab.a.state ≠ STATE_CONNECTED
     · refine ⟨?_, ?_⟩ <;> simp only [Duplex.step, DOp.inAB, DOp.inBA, Sys.stepO, Sys.step, hst, ne_eq, not_false_eq_true, if_true, ← ha, hd hst, hb]
     · refine ⟨?_, ?_⟩ <;> simp only [Duplex.step, DOp.inAB, DOp.inBA, Sys.stepO, Sys.step, hst, if_false, ← ha, hb]
+  | sendAOther now data s' => refine ⟨?_, ?_⟩ <;> simp only [Duplex.step, DOp.inAB, DOp.inBA, Sys.stepO, Sys.step, ha, hb]
+  | sendBOther now data s' => refine ⟨?_, ?_⟩ <;> simp only [Duplex.step, DOp.inAB, DOp.inBA, Sys.stepO, Sys.step, ha, hb]
+  | toBOther now p => refine ⟨?_, ?_⟩ <;> simp only [Duplex.step, DOp.inAB, DOp.inBA, Sys.stepO, Sys.step, ha, hb]
+  | toAOther now p => refine ⟨?_, ?_⟩ <;> simp only [Duplex.step, DOp.inAB, DOp.inBA, Sys.stepO, Sys.step, ha, hb]
   | disconnectB now =>
     have hd : d.ba.a.state ≠ STATE_CONNECTED → (d.ba.a.disconnect env now).c = d.ba.a := by
       intro h; unfold Conn.disconnect; rw [if_pos h]; rfl
